@@ -50,7 +50,7 @@ def run_random_recovery(ctx):
     drv = pv.build_harness("plain", "fault_drv")
     rc, out = pv.sh("%s random %d" % (drv, 6 if ctx.quick() else 40), timeout=900)
     lines = out.splitlines()
-    summ = [l for l in lines if l.startswith("SUMMARY")]
+    summ = [l for l in lines if l.startswith("RANDOM-SUMMARY")]
     ctx.cov.setdefault("fault_drv", {})["random-recovery"] = {"rc": rc, "summary": summ[-1] if summ else "<none>"}
     for l in [l for l in lines if l.startswith("FAIL")][:3]:
         ctx.violation("fault-random", {"kind": "fault-injection", "line": l, "witness": "fault_drv random :: " + l,
